@@ -671,7 +671,7 @@ func genC17(c *Ctx) {
 				m.Translate = "t.ss"
 				m.With = chat.TranslateArgs{v, "2"}
 			case 14:
-				m.Extra = []chat.Message{chat.Text(v), chat.TranslateMsg("t.s", chat.Text(v))}
+				m.Extra = []chat.Message{chat.Text(v), {Translate: "t.s", With: chat.TranslateArgs{chat.Message{Text: v}}}}
 			case 15:
 				m.Translate = v
 				m.Text = v
@@ -736,6 +736,71 @@ func genC17(c *Ctx) {
 		c17Render(c, c17PrintLang(c17LangFor(&m)), c17PrintMsg(m))
 	}
 
+	// 3b. language histories: SetLanguage A, B, … then render; the last one wins, en_us.Map stays as it was
+	{
+		lkeys := []string{"c17.swap", "c17.only.a", "c17.only.b", "chat.type.text", "chat.type.announcement", "commands.message.display.incoming"}
+		lfmts := []string{"%s then %s", "%[2]s before %[1]s", "%[1]s after %[2]s", "<%s> %s", "[%s] %s!", "%[2]s (%[1]s)", "no arguments", "%s %%"}
+		enTok := c17EnToken(lkeys)
+		mk := func(k string, styled bool) chat.Message {
+			m := chat.Message{Translate: k}
+			for j := 0; j < 2; j++ {
+				arg := fmt.Sprintf("A%d", j+1)
+				switch r.Intn(3) {
+				case 0:
+					m.With = append(m.With, arg)
+				case 1:
+					m.With = append(m.With, chat.Text(arg))
+				default:
+					a := chat.Message{Text: arg}
+					if styled {
+						a.Color = c17Colors[r.Intn(len(c17Colors))]
+						a.Bold = r.Intn(2) == 0
+					}
+					m.With = append(m.With, a)
+				}
+			}
+			return m
+		}
+		emit := func(steps []string, ms []chat.Message) {
+			var mt []string
+			for _, m := range ms {
+				mt = append(mt, c17PrintMsg(m))
+			}
+			c17LangHist(c, strings.Join(steps, ";"), strings.Join(mt, ";"))
+		}
+		tabA := c17PrintLang(map[string]string{"c17.swap": "%[2]s before %[1]s", "c17.only.a": "A has %s and %s", "chat.type.text": "%[2]s (%[1]s)"})
+		tabB := c17PrintLang(map[string]string{"c17.swap": "%[1]s after %[2]s", "c17.only.b": "B has %s, %s"})
+		all := []chat.Message{mk("c17.swap", false), mk("c17.only.a", false), mk("c17.only.b", false), mk("chat.type.text", true), mk("chat.type.announcement", false)}
+		for _, steps := range [][]string{{tabA}, {enTok}, {tabA, enTok}, {tabA, tabB}, {tabB, tabA}, {tabA, tabB, enTok}, {enTok, tabA}, {tabA, "-"}, {enTok, enTok}, {tabA, enTok, tabB, enTok}} {
+			emit(steps, all)
+		}
+		for i := 0; i < c.N(120, 2500); i++ {
+			var tabs []string
+			for t := 0; t < 2+r.Intn(2); t++ {
+				m := map[string]string{}
+				for _, k := range lkeys {
+					if r.Intn(2) == 0 {
+						m[k] = lfmts[r.Intn(len(lfmts))]
+					}
+				}
+				tabs = append(tabs, c17PrintLang(m))
+			}
+			var steps []string
+			for n := 1 + r.Intn(4); n > 0; n-- {
+				if r.Intn(3) == 0 {
+					steps = append(steps, enTok)
+				} else {
+					steps = append(steps, tabs[r.Intn(len(tabs))])
+				}
+			}
+			var ms []chat.Message
+			for n := 1 + r.Intn(3); n > 0; n-- {
+				ms = append(ms, mk(lkeys[r.Intn(len(lkeys))], r.Intn(2) == 0))
+			}
+			emit(steps, ms)
+		}
+	}
+
 	// 4. random components from the grammar, depth ≤ 4
 	for i := 0; i < c.N(2500, 60000); i++ {
 		depth := r.Intn(5)
@@ -756,6 +821,29 @@ func genC17(c *Ctx) {
 		m := g.msg(r.Intn(4), false, 0)
 		c17JSON(c, c17PrintMsg(m))
 	}
+
+	// 4b. the same components built through the public constructors
+	for _, m := range []chat.Message{
+		{Text: "hi"}, {Text: "hi", Color: "red"}, {Translate: "chat.type.text"},
+		{Translate: "chat.type.text", With: chat.TranslateArgs{chat.Message{Text: "Bob", Color: "red"}, chat.Message{Text: "§c§lhi"}}},
+		{Translate: "t.i21", With: chat.TranslateArgs{chat.Message{Text: "A1", Bold: true}, chat.Message{Text: "§bA2"}}},
+		{Translate: "chat.type.text", With: chat.TranslateArgs{chat.Message{Text: "Bob"}, chat.Message{Translate: "chat.type.announcement", With: chat.TranslateArgs{chat.Message{Text: "x", Italic: true}, chat.Message{Text: "y"}}}}},
+		{Text: "a", Extra: []chat.Message{{Text: "b", Color: "blue"}, {Translate: "t.s", With: chat.TranslateArgs{chat.Message{Text: "c", Color: "gold"}}}}},
+		{Text: "c", ClickEvent: &chat.ClickEvent{Action: "change_page", Value: "3"}, HoverEvent: &chat.HoverEvent{Action: "show_text", Value: chat.Message{Text: "tip", Color: "green"}}},
+		{Text: "c", ClickEvent: &chat.ClickEvent{Action: "open_url", Value: "https://x"}, HoverEvent: &chat.HoverEvent{Action: "show_item", Value: chat.Message{Text: "{id:1}"}}},
+	} {
+		c17BuildOp(c, c17PrintLang(c17LangFor(&m)), c17PrintMsg(m))
+	}
+	g.oneKey = true
+	for i := 0; i < c.N(700, 15000); i++ {
+		kinds := 0
+		if r.Intn(8) == 0 {
+			kinds = 1 + r.Intn(2)
+		}
+		m := g.msg(r.Intn(4), true, kinds)
+		c17BuildOp(c, c17PrintLang(c17LangFor(&m)), c17PrintMsg(m))
+	}
+	g.oneKey = false
 
 	// 5. chat-type headers
 	g.oneKey = true
@@ -831,6 +919,9 @@ func genC17(c *Ctx) {
 	}
 	for _, s := range fixed {
 		c17JSONDec(c, []byte(s))
+		if len(s) < 32000 {
+			c17JSONMsgRd(c, []byte(s))
+		}
 	}
 	for i := 0; i < c.N(3000, 60000); i++ {
 		var sb strings.Builder
@@ -856,6 +947,9 @@ func genC17(c *Ctx) {
 			text = append(text, ' ')
 		}
 		c17JSONDec(c, text)
+		if i%2 == 0 {
+			c17JSONMsgRd(c, text)
+		}
 		if i%6 == 0 {
 			var b bytes.Buffer
 			pk.String(text).WriteTo(&b)
